@@ -28,7 +28,7 @@ import os
 import hashlib
 import warnings
 
-from amaranth import Signal
+from amaranth import Signal, Value
 from amaranth.hdl import Fragment
 from amaranth.sim import Simulator
 
@@ -107,7 +107,11 @@ class Bench:
         self._eng = eng
         self._in_slots = [st.slots[st.get_signal(s)] for s in self.in_sigs]
         self._in_masks = [(1 << len(s)) - 1 for s in self.in_sigs]
-        self._out_slots = [st.slots[st.get_signal(s)] for s in self.out_sigs]
+        # observed values may be plain Signals (fast path: read the slot) or arbitrary Value expressions
+        # such as a field of a struct-shaped signal (evaluated through the engine)
+        self.out_sigs = [s if isinstance(s, Signal) else Value.cast(s) for s in self.out_sigs]
+        self._out_expr = [(i, s) for i, s in enumerate(self.out_sigs) if not isinstance(s, Signal)]
+        self._out_slots = [st.slots[st.get_signal(s)] if isinstance(s, Signal) else None for s in self.out_sigs]
         self._out_signed = [s.shape().signed for s in self.out_sigs]
         self._fsm_slots = [st.slots[st.get_signal(s)] for s in self.fsm_sigs]
         self._clk_slot = st.slots[st.get_signal(self.domains[main].clk)]
@@ -145,6 +149,7 @@ class Bench:
             cur[in_index[k]] = v
         in_slots, in_masks = self._in_slots, self._in_masks
         out_slots, out_names = self._out_slots, self.out_names
+        out_expr = self._out_expr
         fsm_slots = self._fsm_slots
         clk = self._clk_slot
         h = hashlib.blake2b(digest_size=16)
@@ -178,7 +183,12 @@ class Bench:
                             cur[i] = v
                             in_slots[i].update(v)
             eng.step_design()
-            vals = [sl.curr for sl in out_slots]
+            if out_expr:
+                vals = [sl.curr if sl is not None else 0 for sl in out_slots]
+                for i, e in out_expr:
+                    vals[i] = eng.get_value(e)
+            else:
+                vals = [sl.curr for sl in out_slots]
             sample = dict(zip(out_names, vals))
             h.update(repr((cur, vals)).encode())
             if fsm_slots:
@@ -201,15 +211,8 @@ class Bench:
     # ------------------------------------------------------------------------------------------
     def _run_public(self, actors, max_cycles, init, log):
         """ Same semantics through the documented simulator API only. """
-        sim = Simulator(self.fragment)
-        # re-create clocks as in __init__ (a fresh Simulator keeps this path independent of the fast one)
+        sim = self.sim        # fresh per run: cached_bench() does not cache in this mode
         raise_later = []
-        clocks = self._clock_specs
-        for name, spec in clocks.items():
-            if isinstance(spec, tuple):
-                sim.add_clock(spec[0], phase=spec[1], domain=name)
-            else:
-                sim.add_clock(spec, domain=name)
         in_index = {n: i for i, n in enumerate(self.in_names)}
         cur = [s.init for s in self.in_sigs]
         for k, v in init.items():
